@@ -256,10 +256,27 @@ def run_harness(binary, args, pid, outname, timeout=900):
     out = os.path.join(work, outname)
     p = sh([binary] + args + ['-out', out], check=False, timeout=timeout, env=GOENV)
     if p.returncode != 0:
+        txt = p.stdout or ''
+        i = txt.find('panic: ')
+        if i >= 0 and 'goroutine ' in txt[i:]:
+            # the process was brought down by a panic in a goroutine nobody can recover from;
+            # when the panicking goroutine is the library's own, that run is a concrete failing input
+            trace = txt[i:i + 6000]
+            first = trace.split('\n\n')[1] if '\n\n' in trace else trace
+            frames = [l for l in first.split('\n') if l and not l.startswith('\t') and '(' in l]
+            lib = [f for f in frames if 'ThreeDotsLabs/watermill' in f]
+            own = [f for f in frames if 'wmverif' in f and not f.startswith('panic(')]
+            if lib and (not own or frames.index(lib[0]) < frames.index(own[0])):
+                raise ProcessCrash('harness %s: the implementation panicked in its own goroutine' % args[0], [binary] + args, trace)
         raise CheckError('harness %s failed (rc %d):\n%s' % (args[0], p.returncode, (p.stdout or '')[-4000:]))
     return json.load(open(out)), p.stdout
 
 # ---------------------------------------------------------------- results
+
+class ProcessCrash(CheckError):
+    def __init__(self, msg, cmd, trace):
+        CheckError.__init__(self, msg + '\n' + trace)
+        self.cmd, self.trace = cmd, trace
 
 class Result:
     def __init__(self):
